@@ -18,6 +18,7 @@ RULE = ("family 'hist': seeded random histories of 10-40 top-level ops (add/remo
         "keys, types int/float/str/bool/list/Duration) x payload shapes x check on/off x Event/TimedEvent; "
         "non-trivial(hist) = >=1 subscription change executed inside a notification and >=1 nested fire delivered; "
         "non-trivial(meta) = declaration with >=1 key; distinct = canonical case hash")
+RULE += '; a quarter of the cases use listeners with value equality, each as two equal distinct objects used alternately (one subscriber)'
 ASSUMPTIONS = ["only the direction the statement makes is judged for metadata: an event that was created must conform "
                "(the library additionally refusing None values is not a violation)",
                "a listener script stops re-entering after its 2nd activation / nesting depth 3 (bounds recursion, same in model)"]
@@ -65,7 +66,7 @@ def gen_case(rng, tier, i):
         nk = rng.randint(0, 4)
         decl = {f"k{j}": rng.choice(TYPES) for j in range(nk)}
         shape = rng.choice(["ok", "ok", "missing", "extra", "wrongtype", "nondict", "subclass", "none_value", "renamed", "empty",
-                            "reordered", "reordered_swapped", "defaultdict", "reused_then_mutated"])
+                            "reordered", "reordered_swapped", "defaultdict", "reused_then_mutated", "extra_none", "extra_falsy"])
         return {"fam": "meta", "decl": decl, "shape": shape, "check": rng.random() < 0.7, "timed": rng.random() < 0.5,
                 "ts": rng.choice([0, 1.5, ["dur", 2.0, "h"], "bad", None])}
     nt, nl = rng.randint(2, 4), rng.randint(2, 5)
@@ -226,8 +227,29 @@ def run_case(case, ctx):
         def __len__(self):
             return 0
 
+    class EqL(L):
+        """a listener with value equality (e.g. a dataclass): two equal objects are one subscriber - 'already registered' and
+        'remove' both go by equality"""
+        def __eq__(self, other):
+            return isinstance(other, EqL) and other.i == self.i
+
+        def __hash__(self):
+            return hash(("EqL", self.i))
+
     cur = [0]
-    ls = [(FalsyL if (i + n) % 3 == 0 else L)(i) for i in range(case["nl"])]
+    if n % 4 == 1:
+        # every listener exists as two equal, distinct objects that are used alternately
+        twins = [[EqL(i), EqL(i)] for i in range(case["nl"])]
+        turn = [0]
+
+        class _Pick:
+            def __getitem__(self, i):
+                turn[0] += 1
+                return twins[i][turn[0] % 2]
+        ls = _Pick()
+        ctx.count("cases_with_equal_but_distinct_listener_objects")
+    else:
+        ls = [(FalsyL if (i + n) % 3 == 0 else L)(i) for i in range(case["nl"])]
     model = _Model(case)
     for opi, a in enumerate(case["ops"]):
         mark = len(log)
@@ -312,6 +334,12 @@ def _meta(case, ctx):
         del payload[keys[0]]
     elif shape == "extra":
         payload["zz_extra"] = 1
+    elif shape == "extra_none":
+        payload["zz_extra"] = None          # a surplus key is a surplus key, whatever its value
+        if len(keys) % 2:
+            payload["zz_more"] = None
+    elif shape == "extra_falsy":
+        payload["zz_extra"] = [0, "", False, 0.0][len(keys) % 4]
     elif shape == "wrongtype" and keys:
         wrong = {"int": "s", "float": "s", "str": 5, "bool": "s", "list": 5, "Duration": 5.0, "object": 5}
         payload[keys[-1]] = wrong[decl[keys[-1]]]
